@@ -13,7 +13,7 @@ import numpy as np
 PROP = "C02"
 LEVEL = "exploration"
 VARIANTS = ("omp",)
-CASE_TIMEOUT = 240
+CASE_TIMEOUT = 1200
 TOL = 1e-9
 RULE = ("cases = zoo crystal x supercell (diag/non-diag) x primitive matrix x range regime (short: cutoff < 0.49 L_min, any q; "
         "long: cutoff up to 1.6 L_min, commensurate q only) x full/compact x dense/sparse svecs x {C, Py, run_qpoints}; "
@@ -31,7 +31,7 @@ def gen_cases(tier, seed):
 
     rng = np.random.default_rng([seed, 2])
     max_atoms = 54 if tier == "quick" else 128
-    per = 8 if tier == "quick" else 40
+    per = 8 if tier == "quick" else 110
     cases = []
     for name in crystals.ZOO:
         nu = crystals.natoms(name)
